@@ -316,6 +316,56 @@ impl C17 {
     }
 }
 
+/// Supplemental tick arrays (v2): the same route with up to three extra arrays per pool in the remaining accounts must
+/// give exactly the same result as without them (each leg accepts them as a single swap).
+fn supplemental_lists(v_ix: &rt::Ix, pre: &Ledger, post: &Ledger, salt: u64, idx: usize, cov: &mut Coverage, out: &mut Vec<Violation>) {
+    let Some(c) = wpix::decode(v_ix) else { return };
+    if c.name() != "two_hop_swap_v2" || v_ix.data.last() != Some(&0) || !c.remaining().is_empty() {
+        return;
+    }
+    let Some(lg) = legs(&c, pre) else { return };
+    let pick = |wk: &Pubkey, canon: &[Pubkey; 3], n: usize| -> Vec<Pubkey> {
+        let mut v: Vec<Pubkey> = decode::tick_arrays_of_pool(pre, wk).into_iter().map(|(k, _)| k).collect();
+        v.extend_from_slice(canon);
+        v.truncate(n);
+        v
+    };
+    let combos: [(usize, usize); 4] = [(3, 0), (0, 3), (3, 3), (1, 2)];
+    let (n1, n2) = combos[(salt % 4) as usize];
+    let (s1, s2) = (pick(&lg.w1, &lg.sa1.tick_arrays, n1), pick(&lg.w2, &lg.sa2.tick_arrays, n2));
+    if s1.len() != n1 || s2.len() != n2 {
+        return;
+    }
+    let mut ix2 = v_ix.clone();
+    let mut data = v_ix.data[..v_ix.data.len() - 1].to_vec();
+    data.push(1);
+    let n_slices = (n1 > 0) as u32 + (n2 > 0) as u32;
+    data.extend_from_slice(&n_slices.to_le_bytes());
+    if n1 > 0 {
+        data.push(7); // AccountsType::SupplementalTickArraysOne
+        data.push(n1 as u8);
+    }
+    if n2 > 0 {
+        data.push(8); // AccountsType::SupplementalTickArraysTwo
+        data.push(n2 as u8);
+    }
+    ix2.data = data;
+    for k in s1.iter().chain(s2.iter()) {
+        ix2.accounts.push(rt::Meta { pubkey: *k, is_signer: false, is_writable: true });
+    }
+    let mut f = pre.clone();
+    let r = run(&mut f, ix2);
+    cov.probe("supplemental_array_list_variants");
+    cov.eval(format!("two_hop_swap_v2|supplemental|{}+{}|ok={}", n1, n2, r.ok));
+    if !r.ok {
+        out.push(viol("supplemental_arrays_change_outcome", idx, format!("two_hop_swap_v2 fails (code {:?}) when {} supplemental tick arrays for pool one and {} for pool two are added, although it succeeds without them", r.custom(), n1, n2)));
+        return;
+    }
+    if pool_side_accounts(&f, &lg) != pool_side_accounts(post, &lg) {
+        out.push(viol("supplemental_arrays_change_outcome", idx, format!("two_hop_swap_v2 leaves different pool-side state when {} + {} supplemental tick arrays are added", n1, n2)));
+    }
+}
+
 /// shared with C15 ("two distinct pools"): Some(description) when a two-hop naming one pool in both legs goes through
 pub fn same_pool_twice_accepted(v_ix: &rt::Ix, pre: &Ledger, cov: &mut Coverage) -> Option<String> {
     {
@@ -398,6 +448,9 @@ impl Monitor for C17 {
         }
         if out.is_empty() && ev.salt % 3 == 1 {
             self.same_pool_twice(ixn, ev.pre, ev.idx, cov, &mut out);
+        }
+        if ev.out.ok && out.is_empty() {
+            supplemental_lists(ixn, ev.pre, ev.post, ev.salt, ev.idx, cov, &mut out);
         }
         let _: Option<IxView> = None;
         out
